@@ -44,7 +44,7 @@ manifest = {
     ],
     "checks": checks,
     "not_applicable": na,
-    "notes": "See DESIGN.md. Genuine defects found and repaired in /repo are listed in known_findings.jsonl (fixed: entries) with demonstrations in findings/demos.py.",
+    "notes": "See DESIGN.md. Genuine defects found and repaired in /repo are listed in known_findings.txt (fixed: entries) with demonstrations in findings/demos.py.",
 }
 json.dump(manifest, open(os.path.join(os.path.dirname(HERE), "MANIFEST.json"), "w"), indent=1)
 print("wrote MANIFEST.json with", len(checks), "checks;", len(na), "not_applicable")
